@@ -44,6 +44,8 @@ def dispatch_functions(prog):
 
 
 def run(ctx, prog):
+    from .. import universe as _uni0
+    _uni0.inline_base_entry_points(ctx, prog)
     ctx.rule('C11-D1', 'kernels selectable at one dispatch site agree on parameters, written parameters (+= only) and call arguments')
     ctx.rule('C11-D2', 'no product/power/matmul/reduction on raw read-only inputs in a kernel that takes the precision')
     ctx.rule('C11-D3', 'prange stores are indexed by the induction variable in one fixed axis, or single-writer guarded')
